@@ -5,6 +5,7 @@ usage: tools/selftest.py [-j N] [name-substring ...]      exit 0 = every mutant 
 import json, os, subprocess, sys, shutil, tempfile, concurrent.futures as cf
 ROOT = os.path.dirname(os.path.dirname(os.path.abspath(__file__)))
 REPO = os.environ.get("VERIF_REPO", "/repo")
+GOVC = os.path.join(ROOT, "bin", "govc")
 
 
 def prep_verif(ver):
@@ -41,7 +42,7 @@ def run_one(ent):
         b = subprocess.run(["go", "build", "./..."], cwd=repo, capture_output=True, text=True, env={**os.environ, "GOFLAGS": "-mod=mod", "GOPROXY": "off"})
         if b.returncode != 0:
             return (patch, prop, "DOES-NOT-COMPILE", b.stderr[-500:])
-        r = subprocess.run([os.path.join(ROOT, "bin", "govc"), "check", "-property", prop, "-repo", repo, "-verif", ver, "-v"], capture_output=True, text=True)
+        r = subprocess.run([GOVC, "check", "-property", prop, "-repo", repo, "-verif", ver, "-v"], capture_output=True, text=True)
         failed = [l.strip() for l in r.stdout.splitlines() if l.strip().startswith("FAILED ")]
         viol = [l for l in r.stdout.splitlines() if l.startswith("VIOLATION")]
         known = set()
@@ -60,6 +61,20 @@ def run_one(ent):
         shutil.rmtree(tmp, ignore_errors=True)
 
 def main():
+    global REPO
+    snap = tempfile.mkdtemp(prefix="govc-selftest-snap-")
+    shutil.copytree(REPO, os.path.join(snap, "repo"), ignore=shutil.ignore_patterns(".git"))
+    REPO = os.path.join(snap, "repo")
+    global GOVC
+    GOVC = os.path.join(snap, "govc")
+    shutil.copy(os.path.join(ROOT, "bin", "govc"), GOVC)
+    os.chmod(GOVC, 0o755)
+    try:
+        return main2()
+    finally:
+        shutil.rmtree(snap, ignore_errors=True)
+
+def main2():
     args = sys.argv[1:]; j = 4; prop = None
     while args[:1] and args[0] in ("-j", "-p"):
         if args[0] == "-j": j = int(args[1])
